@@ -65,7 +65,10 @@ MonStep(m, e) == [Upd(m, e) EXCEPT !.lastT = e.t]
 Us(ms) == ms * 1000
 II(m) == Us(m.p.i)
 TT(m) == Us(m.p.t)
-Slack(m) == 250000 + (II(m) + TT(m)) \div 2
+\* every upper bound is extended by the scheduling stalls the harness recorded in this scenario (a loaded machine delays the library's
+\* timers and the broker's answers alike; the stall watcher measures how late a 5-ms sleep wakes up)
+StallAll(m) == FoldSet(LAMBDA k, acc : acc + m.stalls[k].us, 0, 1..Len(m.stalls))
+Slack(m) == 250000 + (II(m) + TT(m)) \div 2 + StallAll(m)
 MinS(S) == CHOOSE x \in S : \A y \in S : x <= y
 MaxS(S) == CHOOSE x \in S : \A y \in S : y <= x
 ObsEnd(m) == IF m.closeT >= 0 THEN m.closeT ELSE m.lastT
@@ -123,7 +126,7 @@ PingMissingC(m, c) ==
 PingPacingWrong(m) == \E c \in Incs(m) : PingTooOftenC(m, c) \/ PingMissingC(m, c)
 
 RecRef(m, td) == MaxS({td} \cup { r \in RangeS(m.releases) : r >= td })
-RecBound(m, td) == RecRef(m, td) + (Us(m.p.recMs) * 3) \div 2 + 250000
+RecBound(m, td) == RecRef(m, td) + (Us(m.p.recMs) * 3) \div 2 + 250000 + StallAll(m)
 Recovered(m, c) ==
     LET td == MinS(Det(m, c))  b == RecBound(m, td)
     IN /\ \E x \in RangeS(m.disc) : x >= td - 50000 /\ x <= b
